@@ -22,3 +22,7 @@ chk("C11", "E3-bfs", "model_checking",
     "Every distinct state reached by a bounded BFS of well-formed histories is exported with the real CLI binary (exactness against the released maxima), re-imported by the real CLI into an empty directory, and compared on an ascending probe sequence with the restarted original and a never-restarted replay; old-format gob records of boundary values are planted and compared with current-format records.",
     "Trusted: the ascending probe sequence identifies a watermark state inside the probe alphabet; values outside the alphabets behave like neighbours.",
     "explicit-state BFS + differential oracle through the real CLI binary", "5/C11")
+chk("C10", "E3-bfs", "model_checking",
+    "Each transition is one run of the real `dirk --import-slashing-protection` binary built from the tree; prior per-key histories are made by real signing; all (prior state x file) cells and sequences of two imports over an alphabet of files (one-field-newer, duplicate keys, wrong metadata, malformed numbers/keys) are enumerated; after each cell the reopened store is probed for refusal at and below every own/file maximum and decoded records are compared.",
+    "Trusted: values outside the alphabet behave like neighbours; only two keys; probes are a finite set around the maxima.",
+    "exhaustive (state x input) enumeration through the real CLI binary with probe oracle", "5/C10")
